@@ -163,7 +163,8 @@ pub fn drain(post: &Ledger, wk: &Pubkey, salt: u64, idx: usize, cov: &mut Covera
                 cov.note(&format!("drain_step_failed:{}:{:#x}", name, o.code()));
                 // "every position can be fully withdrawn and its fees collected": the only refusal a holder meets for a reason
                 // that is not the pool's is a clock that reads earlier than the pool's last update (InvalidTimestamp)
-                if o.code() != 6022 {
+                // (or, when the clock reads a negative time, cannot be converted at all: InvalidTimestampConversion)
+                if o.code() != 6022 && o.code() != 6021 {
                     out.push(viol(
                         "drain_step_refused",
                         idx,
